@@ -37,6 +37,9 @@ def scenarios(tier):
     cw1, cw2 = cheat_worlds()
     L.append((SC.scn("own-log-cheat-uptodate-j2", cw1, ["redo -j2 b a c"], visible=VIS, limit=2, log_mode=True), 1 if q else 2))
     L.append((SC.scn("own-log-cheat-builds-j2", cw2, ["redo -j2 b a c"], visible=VIS, limit=2, log_mode=True), 1 if q else 2))
+    # the same under an inherited jobserver: the pipe must hold exactly N-1 tokens and no cheat byte afterwards
+    L.append((SC.scn("inherit-log-cheat-uptodate-n2", cw1, ["redo-ifchange b a c"], visible=VIS, jobserver=2, limit=2, log_mode=True), 0 if q else 1))
+    L.append((SC.scn("inherit-log-cheat-builds-n2", cw2, ["redo-ifchange b a c"], visible=VIS, jobserver=2, limit=2, log_mode=True), 0 if q else 1))
     # own jobserver: redo -jN creates the pipes and checks itself on exit
     L.append((SC.scn("own-fan3-j2", w["fan3"], ["redo --no-log -j2 top"], visible=VIS, limit=2), 1 if q else 2))
     L.append((SC.scn("own-fan3x2-j2", w["fan3x2"], ["redo --no-log -j2 t1 t2"], visible=VIS, limit=2), 1 if q else 2))
